@@ -511,10 +511,14 @@ pub fn run(ctx: &Ctx, sink: &mut Sink) {
     let n = alpha.len();
     sink.count("alphabet_size", n as u64);
     // ---- exhaustive sequences up to length 4 (quick) / 5 (thorough), sharded
+    // (length 5 is exhaustive over the first CORE templates - the alphabet as it stood when the thorough tier was sized; the
+    // templates added since take part in every sequence up to length 4, in the sampled longer sequences and in the sessions)
+    const CORE: usize = 40;
     let max_len = if ctx.quick { 4 } else { 5 };
     let mut idx = 0u64;
     for len in 1..=max_len {
-        let total = (n as u64).pow(len as u32);
+        let base = if len >= 5 { CORE.min(n) } else { n };
+        let total = (base as u64).pow(len as u32);
         for code in 0..total {
             idx += 1;
             if !ctx.mine(idx) {
@@ -523,8 +527,8 @@ pub fn run(ctx: &Ctx, sink: &mut Sink) {
             let mut c = code;
             let mut seq: Vec<&Tpl> = Vec::with_capacity(len);
             for _ in 0..len {
-                seq.push(&alpha[(c % n as u64) as usize]);
-                c /= n as u64;
+                seq.push(&alpha[(c % base as u64) as usize]);
+                c /= base as u64;
             }
             // a deterministic sample of the sequences is also replayed through the real REPL (Python leg)
             let for_repl = len >= 2 && code % (if len <= 2 { 13 } else if len == 3 { 331 } else if len == 4 { 16001 } else { 800011 }) == (ctx.seed % 11);
@@ -553,7 +557,7 @@ pub fn run(ctx: &Ctx, sink: &mut Sink) {
     }
     sink.count("value_variants_of_alphabet", VARIANT_VALUES.len() as u64);
     // longer exhaustive level is sampled: length max_len+1
-    let extra = ctx.budget(60_000, 1_500_000);
+    let extra = ctx.budget(60_000, 6_000_000);
     let total = (n as u64).pow((max_len + 1) as u32);
     for j in 0..extra {
         if !ctx.mine(j) {
